@@ -56,6 +56,27 @@ def check(rep: Report, ctx: Ctx) -> None:
     r15(rep, ctx)
     r16(rep, ctx)
     r17(rep, ctx)
+    r18(rep, ctx)
+
+
+def r18(rep: Report, ctx: Ctx) -> None:
+    """(shared with C04 R4.5)  Loop extraction and the later phases rewrite
+    Event objects in place (successor sets become LOOP_n, dummy events are
+    spliced in).  They must work on a private copy: the caller keeps the
+    model (it is saved with -om and handed to the next run / the next call
+    with the same dictionary), and a rewritten model makes the next learning
+    step fail on, or mis-learn, the jobs it was learned from."""
+    rep.rule("R1.8", "the phases after ingestion never rewrite the model "
+             "they were given (they run on a deep copy)", 3)
+    from . import c04 as _c04
+    sub = Report("C04", ctx.index)
+    sub.rule("R4.5", "derived computations run on a copy", 1)
+    _c04.r45(sub, ctx)
+    for o in sub.obligations:
+        o.rule = "R1.8"
+        rep.obligations.append(o)
+    rep.funcs_seen |= sub.funcs_seen
+    rep.analysed.update(sub.analysed)
 
 
 def channels(ctx: Ctx):
